@@ -10,7 +10,7 @@ def _setup(tree):
     return SETUP + f"MK = lambda: {tree.expr}\n"
 
 
-def iadd(tree, na, nb, mode="real", timeout=60, fixy=False, special=False, reload_b=False):
+def iadd(tree, na, nb, mode="real", timeout=60, fixy=False, special=False, reload_b=False, reload_a=False):
     pa, prea, codea = data_params(tree, na, mode=mode, prefix="a", fix_leaf_y=fixy, special=special)
     pb, preb, codeb = data_params(tree, nb, mode=mode, prefix="b", fix_leaf_y=fixy, special=special)
     pe, pree, codee = data_params(tree, 1, mode=mode, prefix="e", fix_leaf_y=fixy)
@@ -18,7 +18,7 @@ def iadd(tree, na, nb, mode="real", timeout=60, fixy=False, special=False, reloa
 a, a0, b = fresh(MK, 3)
 for d in adata: a.fill(d); a0.fill(d)
 for d in bdata: b.fill(d)
-""" + ("b = Factory.fromJson(J(b))   # the right operand arrives as JSON (fillsparksql does self += fromJson(...))\n" if reload_b else "") + """
+""" + ("b = Factory.fromJson(J(b))   # the right operand arrives as JSON (fillsparksql does self += fromJson(...))\n" if reload_b else "") + ("a = Factory.fromJson(J(a))   # the left operand is a reloaded checkpoint, the right one a live partial\n" if reload_a else "") + """
 expected = J(a0 + b)
 jb = J(b)
 ida = id(a)
@@ -35,13 +35,17 @@ c2 = b + b
 if not jeq(J(a), ja): return "later-merge-of-b-leaks-into-a"
 """) + """
 jb = J(b)
-a.fill(edata[0])
+""" + ("""a.fill(edata[0])
 if not jeq(J(b), jb): return "later-fill-of-a-leaks-into-b"
-"""
+""" if not reload_a else """exp2 = J(Factory.fromJson(J(a)) + b)
+a += b
+if not jeq(J(b), jb): return "second-merge-changed-right-operand"
+if not jeq(J(a), exp2): return "second-iadd-differs-from-add"
+""")
     return Harness(
-        f"C07/iadd/{tree.name}/a{na}b{nb}/{mode}" + ("-fixy" if fixy else "") + ("-s" if special else "") + ("-reloaded" if reload_b else ""), pa + pb + pe, " and ".join(prea + preb + pree), body, mode=mode,
+        f"C07/iadd/{tree.name}/a{na}b{nb}/{mode}" + ("-fixy" if fixy else "") + ("-s" if special else "") + ("-reloaded" if reload_b else "") + ("-reloaded-left" if reload_a else ""), pa + pb + pe, " and ".join(prea + preb + pree), body, mode=mode,
         timeout=timeout, setup=_setup(tree), tree=tree.expr, special=SPECIAL_XY if special else None,
-        bounds=bounds_text(tree, na + nb + 1, right_operand="reloaded from JSON" if reload_b else "live", data="finite reals + nan/+-inf" if special else "finite reals", a_records=na, b_records=nb, continuation="one symbolic fill of b, then of a"),
+        bounds=bounds_text(tree, na + nb + 1, right_operand="reloaded from JSON" if reload_b else "live", left_operand="reloaded from JSON" if reload_a else "live", data="finite reals + nan/+-inf" if special else "finite reals", a_records=na, b_records=nb, continuation="one symbolic fill of b, then of a"),
     )
 
 
@@ -103,8 +107,57 @@ if not jeq(J(a), J(r)): return "continuation-after-iadd-differs-from-filling-eve
                    bounds=bounds_text(tree, 3, history="a look-alike tree (fields swapped) went through fill, +=, +, fill before"))
 
 
+# collections and binned containers over the leaves whose merge is not a plain sum (extrema, bags)
+MIXED = [
+    ("Label(Minimize,Minimize)", "H.Label(lo=H.Minimize(qx), hi=H.Minimize(qy))"),
+    ("UntypedLabel(Minimize,Maximize)", "H.UntypedLabel(lo=H.Minimize(qx), hi=H.Maximize(qx))"),
+    ("UntypedLabel(Bag,Minimize)", 'H.UntypedLabel(bag=H.Bag(qn, "N"), lo=H.Minimize(qx))'),
+    ("Index(Minimize,Minimize)", "H.Index(H.Minimize(qx), H.Minimize(qy))"),
+    ("Index(Bag,Bag)", 'H.Index(H.Bag(qn, "N"), H.Bag(qn, "N"))'),
+    ("Branch(Maximize,Bag)", 'H.Branch(H.Maximize(qx), H.Bag(qn, "N"))'),
+    ("Stack>Minimize", "H.Stack([0.0, 1.0], qx, H.Minimize(qy))"),
+    ("Stack>Bag", 'H.Stack([0.0, 1.0], qx, H.Bag(qn, "N"))'),
+    ("IrregularlyBin>Bag", 'H.IrregularlyBin([0.0, 1.0], qx, H.Bag(qn, "N"))'),
+    ("IrregularlyBin>Maximize", "H.IrregularlyBin([0.0, 1.0], qx, H.Maximize(qy))"),
+    ("CentrallyBin>Maximize", "H.CentrallyBin([0.0, 2.0], qx, H.Maximize(qy))"),
+    ("CentrallyBin>Bag", 'H.CentrallyBin([0.0, 2.0], qx, H.Bag(qn, "N"))'),
+]
+
+
+def reordered_keys(kind, timeout=60):
+    """both operands have the same key set, written in a different order (keyword order, or a JSON producer that sorts keys)"""
+    mk = {"Label": ("H.Label(p=H.Sum(qx), q=H.Sum(qy), r=H.Sum(qx))", "H.Label(r=H.Sum(qx), q=H.Sum(qy), p=H.Sum(qx))"),
+          "UntypedLabel": ("H.UntypedLabel(p=H.Sum(qx), q=H.Sum(qy), r=H.Bin(2, 0.0, 2.0, qx))", "H.UntypedLabel(r=H.Bin(2, 0.0, 2.0, qx), q=H.Sum(qy), p=H.Sum(qx))")}[kind]
+    body = """
+data = [(x1, y1, "a", 1.0), (x2, y2, "b", 2.5)]
+with NT():
+    a = MKA(); a0 = MKA(); b = MKB(); bs = MKB()
+    for t in (a, a0, b, bs): t._checkForCrossReferences()
+a.fill(data[0]); a0.fill(data[0]); b.fill(data[1]); bs.fill(data[1])
+if reload: b = Factory.fromJson(J(b))
+expected = J(a0 + b)
+want_p = a0.get("p").sum + bs.get("p").sum; want_q = a0.get("q").sum + bs.get("q").sum
+jb = J(b)
+a += b
+if not jeq(J(a), expected): return "iadd-of-reordered-keys-differs-from-add"
+if a.get("p").sum != want_p or a.get("q").sum != want_q: return "children-merged-with-the-wrong-partner"
+if not jeq(J(b), jb): return "right-operand-changed"
+"""
+    return Harness(f"C07/reordered-keys/{kind}", [("x1", "float"), ("y1", "float"), ("x2", "float"), ("y2", "float"), ("reload", "bool")], "True", body,
+                   timeout=timeout, setup=SETUP + f"MKA = lambda: {mk[0]}\nMKB = lambda: {mk[1]}\n", tree=mk[0] + " += " + mk[1],
+                   bounds="one symbolic record each; right operand live or reloaded from JSON (by selector); same key set in reverse order")
+
+
 def harnesses(tier):
-    out = []
+    out = [reordered_keys("Label"), reordered_keys("UntypedLabel")]
+    for n, e in MIXED:
+        t = cat.Tree(n, e)
+        out.append(iadd(t, 0, 1, timeout=40))
+        out.append(iadd(t, 1, 1, reload_a=True))
+        if tier == "thorough":
+            out.append(iadd(t, 1, 1)); out.append(iadd(t, 1, 1, reload_b=True)); out.append(iadd(t, 1, 2))
+    for t in cat.unit() + cat.extra_unit():
+        out.append(iadd(t, 1, 1, reload_a=True))
     for t in cat.unit() + cat.extra_unit():
         out.append(iadd(t, 1, 1, reload_b=True))
         if (t.uses_x or t.uses_y) and not t.cmp_only:
